@@ -13,7 +13,7 @@ PROPS["C16"] = {
     "level_text": "One-step refinement of a bounded FIFO: from every RingBuffer state satisfying the representation invariant (all read positions, all fill levels, closed or not, arbitrary item values; capacities 1..8 quick, ..32 thorough) one real Push / Pull / Close is executed symbolically and the post-state, return values, lock release and wake-up are compared with the reference queue. Because each operation is a single mutex-protected critical section (checked on every path), the step result covers operation histories of any length; real goroutine schedules are not explored.",
     "level_note": "Trusted: sync.Mutex/sync.Cond contracts (modelled sequentially, lock state tracked), the engine's SSA semantics (validated by native replay of counterexamples and must-fail twins). Not covered: real scheduler interleavings, Close racing Start, Reset, asyncprocessor goroutine.",
     "runs": [
-        R("ring-size%d" % s, "pkg/ringbuffer", "pkg/ringbuffer", ["ZzC16Push", "ZzC16Pull", "ZzC16Close"],
+        R("ring-size%d" % s, "pkg/ringbuffer", "pkg/ringbuffer", ["ZzC16Push", "ZzC16Pull", "ZzC16Close", "ZzC16Wake"],
           flags={"allow": "blocked", "workers": 6}, params={"SIZE": s},
           tiers=("quick", "thorough") if s <= 8 else ("thorough",))
         for s in (1, 2, 4, 8, 16, 32)
